@@ -65,6 +65,11 @@ CLAIMS = {
   text="Structural necessary conditions of the precedence table: each operator named by the property is registered in InitInfixOps with the constructor of its class (Assignment / Infixr for right-associative, Infix, Prefix for not), classes are uniform and strictly ordered assignment < comma < or/and < comparison < additive < multiplicative < power < not < indexing = field access; the constructors parse the right operand with bp or bp-1 as their associativity requires and record bp as the operator's left binding power; Pratt.Expression stops exactly when rbp >= LeftBindingPower(next); LeftBindingPower returns the registered power for operators, the index power for arrays and dotted symbols, the comma's own power, 0 for if; every registered operator spelled with operator characters is an alternative of the lexer's operator regex or has a dedicated lexer state. Does not decide +/- sign classification, statement splitting, go-style for lowering, if/else, or value equality with the prefix form.",
   note="Trusts go/types constant evaluation and regexp/syntax. Renumbering binding powers is fine as long as the order holds.",
   ref="DESIGN.md §3 C06"),
+ "C12": dict(
+  technique="table extraction and agreement checks between printer and reader (escape alphabet of strconv.Quote vs the reader's escape switch, token kinds vs parser arms, numeric bases vs stripped prefixes), byte-to-rune conversion lint and float-format lint over go/ssa, end-of-text flush path check",
+  text="Structural necessary conditions of print/read round trip: the string and char printers use strconv.Quote/QuoteRune and every escape those can emit has an arm in EscapeChar (the three multi-character escapes are recorded findings); lexer.go/parser.go never convert one byte of a string to a rune; SexpFloat.SexpString never returns the bare shortest fixed-point text; every token kind produced by DecodeAtom has an arm in ParseExpression (backslash is structural) and decimal/hex/octal/binary arms parse with base 10/16/8/2 from the text the lexer hands over with the two-character prefix stripped; the top-level end-of-text path flushes and parses the last atom. Does not decide float text exactness, the regex cascade, or equality of read-back values.",
+  note="Trusts the documented output alphabet of strconv.Quote/QuoteRune, go/types constants and go/ssa.",
+  ref="DESIGN.md §3 C12"),
 }
 NA_DEFAULT="rules not built yet (build in progress; see DESIGN.md §7)"
 NA = {}
